@@ -43,7 +43,14 @@ def sortStr (l : List String) : List String := l.foldr insertSortedStr []
 /-- is event `n` an accepted event of the instance's current epoch? -/
 def posIn (i : Inst) (n : Nat) : Option Nat := i.posOf n
 
+def needsInst (op : String) : Bool :=
+  ["restart", "reset", "build", "process", "fc", "hb", "roots", "state"].contains op
+
+def knownParents (st : St) (e : Ev) : Bool := e.parents.all (fun p => (st.events.lookup p).isSome)
+
 def step (st : St) (ws : List String) : St × String :=
+  if needsInst (ws.headD "") && (match ws with | _ :: k :: _ => (st.insts.lookup (nat! k)).isNone | _ => true) then (st, "noinst") else
+  if ws.headD "" == "inst" && st.genesis.isEmpty then (st, "novals") else
   match ws with
   | "vals" :: ps => ({ st with genesis := parsePairs ps }, "ok")
   | "seal" :: e :: f :: ps => ({ st with seals := ((nat! e, nat! f), parsePairs ps) :: st.seals }, "ok")
@@ -56,10 +63,12 @@ def step (st : St) (ws : List String) : St × String :=
     (setInst st (nat! k) i, stateStr i)
   | "ev" :: n :: rest =>
     let e := mkEv (nat! n) (nat! ((kv rest "e").getD "0")) rest (nat! ((kv rest "f").getD "0"))
+    if !knownParents st e then (st, "err unknown-parent") else
     ({ st with events := (e.n, e) :: st.events }, "ok")
   | "build" :: k :: n :: rest =>
     let i := getInst st (nat! k)
     let e := mkEv (nat! n) i.epoch rest 0
+    if !knownParents st e then (st, "err unknown-parent") else
     match build i e with
     | none => (st, "err noparent")
     | some f =>
